@@ -5,6 +5,7 @@
 -/
 import Kust.SmPatchId
 import Kust.Lemmas.Res
+import Kust.Fns
 namespace Kust.C02
 open Kust Res SmPatchId
 
@@ -57,5 +58,15 @@ theorem smpatch_keeps_alignment (cs : Gvk → Bool) (o : Opts) (r r' : R) (m : S
 example : (apply (fun _ => false) ⟨true, false⟩ { gvk := ⟨"apps", "v1", "StatefulSet"⟩, name := "web", ns := "" }
     (some ("Deployment", "other", "elsewhere"))).map (fun r => (r.gvk.kind, r.name, r.ns, r.pNames)) =
     some ("StatefulSet", "other", "", ["web"]) := by decide
+
+/-- finding C02-K1 on the setter model: putting the name `123` back over a PLAIN scalar (what a patch that replaced the
+    metadata left there) yields a plain `123` — the double quotes the setter had just given the number-like string are
+    overwritten by the destination's style — although `123` reads as a number -/
+theorem Witness.restored_numeric_name_unquoted :
+    Fns.fieldSetter (fun v => v = "123") "name" (some (.scalar "" "123" 0)) false false
+      (.map 0 [("name", .scalar "!!str" "whatever" 0)])
+    = .ok (.map 0 [("name", .scalar "" "123" 0)], some (.scalar "" "123" 0)) ∧
+    Fns.quoteIfNonString (fun v => v = "123") false (.scalar "" "123" 0) = .scalar "" "123" Fns.dq := by
+  decide
 
 end Kust.C02
